@@ -764,6 +764,19 @@ func chainMain(args []string) error {
 	for _, st := range sc.Steps {
 		switch st.Ev {
 		case "block":
+			halted := false
+			func() {
+				// a panic while a block is processed halts the chain: that is recorded (a verdict), the scenario ends here
+				defer func() {
+					if r := recover(); r != nil {
+						msg := fmt.Sprint(r)
+						if len(msg) > 160 {
+							msg = msg[:160]
+						}
+						emit(M{"ev": "halt", "h": n.Height + 1, "msg": msg})
+						halted = true
+					}
+				}()
 			in := BlockIn{DtMs: st.DtMs, Proposer: st.Proposer, Absent: st.Absent, Evidence: st.Evidence}
 			imp := n.imported
 			impres := []any{}
@@ -890,6 +903,10 @@ func chainMain(args []string) error {
 				"valUpdates": ValUpdates(eb.ValidatorUpdates), "cpUpdates": cp},
 				"ntx": len(txres), "routes": nroutes, "broken": broken, "logs": logs})
 			bi++
+			}()
+			if halted {
+				goto done
+			}
 		case "local":
 			if *role != "follow" {
 				continue
@@ -982,6 +999,7 @@ func chainMain(args []string) error {
 				"leaves": d["leaves"], "queries": d["queries"], "initHeight": d["initHeight"]})
 		}
 	}
+done:
 	if *role == "gen" {
 		bz, _ := json.Marshal(recs)
 		if err := os.WriteFile(*blocksPath, bz, 0o644); err != nil {
